@@ -82,6 +82,25 @@ def translate():
     for n in ast.walk(tree):
         if isinstance(n, ast.Call) and isinstance(n.func, ast.Name) and n.func.id == "Cluster":
             ctor.append(sorted(k.arg for k in n.keywords if k.arg))
+    # the bond threshold / distances a Cluster is constructed with are the caller's own (by name), and _merge_clusters receives
+    # get_clusters' values at the positions of its parameters of the same name
+    def _kw_is_name(call, kw, name):
+        return any(k.arg == kw and isinstance(k.value, ast.Name) and k.value.id == name for k in call.keywords)
+    ctor_calls = [n for n in ast.walk(tree) if isinstance(n, ast.Call) and isinstance(n.func, ast.Name) and n.func.id == "Cluster"]
+    fwd = bool(ctor_calls) and all(_kw_is_name(c, "bond_threshold", "bond_threshold") and _kw_is_name(c, "distances", "distances") for c in ctor_calls)
+    mdef = fns.get("_merge_clusters")
+    mcalls = [n for n in ast.walk(gc) if isinstance(n, ast.Call) and isinstance(n.func, ast.Attribute) and n.func.attr == "_merge_clusters"]
+    if mdef is None or len(mcalls) != 1:
+        fwd = False
+    else:
+        params = [a.arg for a in mdef.args.args][1:]
+        call = mcalls[0]
+        bound = {p_: a_ for p_, a_ in zip(params, call.args)}
+        bound.update({k.arg: k.value for k in call.keywords if k.arg})
+        for p_ in ("bond_threshold", "merge_threshold", "distances"):
+            v = bound.get(p_)
+            if not (isinstance(v, ast.Name) and v.id == p_):
+                fwd = False
     sbc_fields = sorted(set(_self_attr_targets(cls)))
     # PeriodicFinder.get_region
     ptree = ast.parse(open(os.path.join(REPO, "matid", "core", "periodicfinder.py")).read())
@@ -97,7 +116,7 @@ def translate():
             top |= set(_self_attr_targets(st))
     cond = sorted(set(_self_attr_targets(gr[0])) - top)
     return {"order": order, "returns": returns == last_var, "zero_row": zero_row, "zero_raise": zero_raise, "scale": scale, "loop": loop,
-            "ctor": ctor, "dist_radii": dist_radii, "sbc_fields": sbc_fields, "sbc_init": "__init__" in fns, "finder_cond": cond}
+            "ctor": ctor, "ctor_fwd": fwd, "dist_radii": dist_radii, "sbc_fields": sbc_fields, "sbc_init": "__init__" in fns, "finder_cond": cond}
 
 
 def generate(out=None):
@@ -116,6 +135,8 @@ def generate(out=None):
                       "/-- the shared distance information is computed with the resolved clustering radii -/",
                       "def distancesUseRadii : Bool := " + b(r["dist_radii"]),
                       "def ctorKeywords : List (List String) := [" + ", ".join(q(k) for k in r["ctor"]) + "]",
+                      "/-- every Cluster(...) gets `bond_threshold=bond_threshold` and `distances=distances`, and _merge_clusters is handed get_clusters' own values under the same names -/",
+                      "def ctorForwardsByName : Bool := " + b(r["ctor_fwd"]),
                       "def sbcSelfFields : List String := " + q(r["sbc_fields"]),
                       "def sbcHasInit : Bool := " + b(r["sbc_init"]),
                       "def finderCondAssign : List String := " + q(r["finder_cond"]),
